@@ -107,6 +107,8 @@ def verify_function(contract, registry, label_prefix="", feas_timeout_ms=250):
             declared = [a.arg for a in fnode.args.posonlyargs + fnode.args.args + fnode.args.kwonlyargs]
             if fnode.args.vararg:
                 declared.append(fnode.args.vararg.arg)
+            if fnode.args.kwarg:
+                declared.append(fnode.args.kwarg.arg)
             for p in contract.params:
                 if p not in declared:
                     raise Unsupported(f"contract parameter {p!r} is not a parameter of {contract.target} (stale contract)")
